@@ -163,4 +163,32 @@ def Spendable.txIn (s : Spendable) : In := ⟨s.txHash, s.txOutIndex⟩
 /-- the `(txs_in, unspents)` pair `create_tx` builds -/
 def createTxPairing (sp : List Spendable) : List In × List Spendable := (sp.map Spendable.txIn, sp)
 
+/-! ### histories on one Tx object: the value accessors are recomputed from the current fields (there is no cache) -/
+
+structure TxVals where
+  unspents : List Int
+  outs : List Int
+  deriving Repr
+
+inductive TxStep
+  | fee | totalIn | totalOut
+  | setUnspents (vs : List Int)     -- set_unspents / unspents_from_db / direct assignment: all replace the list
+  | setOut (i : Nat) (v : Int)      -- tx.txs_out[i].coin_value = v
+  deriving Repr
+
+/-- one step: new state and the answer printed (`none` for mutators) -/
+def txStep (st : TxVals) : TxStep → TxVals × Option Int
+  | .fee => (st, some (fee st.unspents st.outs))
+  | .totalIn => (st, some st.unspents.sum)
+  | .totalOut => (st, some st.outs.sum)
+  | .setUnspents vs => ({ st with unspents := vs }, none)
+  | .setOut i v => ({ st with outs := st.outs.set i v }, none)
+
+def txRun : TxVals → List TxStep → List (Option Int)
+  | _, [] => []
+  | st, s :: ss => let (st', a) := txStep st s; a :: txRun st' ss
+
+/-- the state reached after a history -/
+def txAfter (st : TxVals) (ss : List TxStep) : TxVals := ss.foldl (fun st s => (txStep st s).1) st
+
 end Pycoin.Value
